@@ -144,6 +144,7 @@ func main() {
 		os.Exit(2)
 	}
 	selfTestGlob(r)
+	probeUnjudged(r)
 
 	if r.Replay != "" {
 		replay(r)
@@ -153,7 +154,7 @@ func main() {
 	walls := map[string]float64{} // informational only
 	t0 := time.Now()
 	lap := func(name string) { walls[name] = time.Since(t0).Seconds(); t0 = time.Now() }
-	n := r.Pick(1500, 50000)
+	n := r.Pick(1500, 80000)
 	parallel(n, func(i int) { runSeq(r, caseID{Layer: 1, Seed: r.Seed*1_000_003 + int64(i)}) })
 	lap("layer1_sequences")
 	nc := r.Pick(2, 12)
@@ -169,24 +170,26 @@ func main() {
 	scanRaceLogs(r)
 	r.Extra("wall_s_by_layer", walls)
 
-	r.FloorNontrivial(int64(r.Pick(150, 10000)))
-	r.FloorCount("updates", int64(r.Pick(30000, 2000000)))
-	r.FloorCount("lookups", int64(r.Pick(300000, 20000000)))
-	r.FloorCount("snapshots", int64(r.Pick(1500, 100000)))
-	r.FloorCount("update:mismatch-lower", int64(r.Pick(1000, 50000)))
-	r.FloorCount("update:mismatch-higher", int64(r.Pick(1000, 50000)))
-	r.FloorCount("update:mismatch-zero", int64(r.Pick(500, 30000)))
-	r.FloorCount("update:delete-ok", int64(r.Pick(1000, 50000)))
-	r.FloorCount("getall_nonempty_answers", int64(r.Pick(3000, 200000)))
-	r.FloorCount("getall_nonempty_answers_caller_patterns", int64(r.Pick(300, 20000)))
-	r.FloorCount("list_nonempty_answers", int64(r.Pick(2000, 100000)))
-	r.FloorCount("raftstore_ops", int64(r.Pick(1500, 60000)))
-	r.FloorCount("raftstore_op:set-mismatch", int64(r.Pick(100, 3000)))
-	r.FloorCount("raftstore_op:set-ok", int64(r.Pick(100, 3000)))
-	r.FloorCount("raftstore_real_snapshots_created", int64(r.Pick(5, 150)))
-	r.FloorCount("concurrent_lookups", int64(r.Pick(2000, 20000)))
-	r.FloorCount("concurrent_lookups_overlapping_an_update", int64(r.Pick(100, 1000)))
-	r.FloorCount("concurrent_snapshots_saved_and_restored", int64(r.Pick(50, 500)))
+	// coverage floors: roughly 70% of what the fixed, seed-determined case lists produce
+	r.FloorNontrivial(int64(r.Pick(600, 32000)))
+	r.FloorCount("updates", int64(r.Pick(35000, 1750000)))
+	r.FloorCount("lookups", int64(r.Pick(700000, 36000000)))
+	r.FloorCount("snapshots", int64(r.Pick(2500, 135000)))
+	r.FloorCount("update:mismatch-lower", int64(r.Pick(4500, 240000)))
+	r.FloorCount("update:mismatch-higher", int64(r.Pick(3000, 160000)))
+	r.FloorCount("update:mismatch-zero", int64(r.Pick(3500, 185000)))
+	r.FloorCount("update:delete-ok", int64(r.Pick(4000, 215000)))
+	r.FloorCount("getall_nonempty_answers", int64(r.Pick(16000, 800000)))
+	r.FloorCount("getall_nonempty_answers_caller_patterns", int64(r.Pick(1500, 80000)))
+	r.FloorCount("list_nonempty_answers", int64(r.Pick(16000, 800000)))
+	r.FloorCount("raftstore_ops", int64(r.Pick(3000, 100000)))
+	r.FloorCount("raftstore_op:set-mismatch", int64(r.Pick(500, 30000)))
+	r.FloorCount("raftstore_op:set-ok", int64(r.Pick(150, 9000)))
+	r.FloorCount("raftstore_real_snapshots_created", int64(r.Pick(10, 1400)))
+	r.FloorCount("raftstore_replica_restarts", int64(r.Pick(1, 25)))
+	r.FloorCount("concurrent_lookups", int64(r.Pick(5000, 200000)))
+	r.FloorCount("concurrent_lookups_overlapping_an_update", int64(r.Pick(1000, 100000)))
+	r.FloorCount("concurrent_snapshots_saved_and_restored", int64(r.Pick(250, 3000)))
 	r.Finish()
 }
 
@@ -224,4 +227,25 @@ func replay(r *ev.Run) {
 		runStoreCase(r, caseID{Layer: 2, Seed: r.Seed * 9_000_011})
 		scanRaceLogs(r)
 	}
+}
+
+// probeUnjudged records, on a fixed small store, the answers to the lookups this check does
+// not judge (root listings, malformed patterns), so that the evidence shows what was seen.
+func probeUnjudged(r *ev.Run) {
+	sm := kv.NewLFSM()(1, 1)
+	var ops []opDesc
+	for i, k := range []string{"/a", "/b/c", "/b/d/e", "x", "y/z"} {
+		ops = append(ops, opDesc{Index: uint64(i + 1), Op: kv.UpdateOpSet, Key: k, Val: "v"})
+	}
+	if _, err := applyCuts(sm, ops, []int{len(ops)}); err != nil {
+		return
+	}
+	obs := map[string]string{"store_keys": `/a /b/c /b/d/e x y/z`}
+	for _, q := range []query{{"list", "/", ""}, {"listdir", "/", ""}, {"list", "", ""}, {"list", "/b/", ""}, {"getall", "[", ""}} {
+		got, err := sm.Lookup(q.req())
+		obs[q.String()] = render(got, err)
+	}
+	got, err := kv.NewLFSM()(1, 2).Lookup(kv.QueryAll{Pattern: "["})
+	obs[`getall("[") on an empty store`] = render(got, err)
+	r.Extra("observed_not_judged", obs)
 }
